@@ -503,7 +503,7 @@ fn prc_cases<const P: i64>(ctx: &mut Ctx, stream: u64) {
     if p <= 61 {
         ns.extend(-3 * p..=3 * p);
     }
-    for _ in 0..(if th { 20000 } else { 1500 }) {
+    for _ in 0..(if th { 20000 } else { 5000 }) {
         ns.push(match rng.below(4) {
             0 => rng.next_u64() as i64,
             1 => -p * rng.range(0, i64::MAX / p),
@@ -534,7 +534,7 @@ fn prc_cases<const P: i64>(ctx: &mut Ctx, stream: u64) {
     }
     let ns3 = if th { special.len() } else { 9 };
     for &a in &special[..ns3] { for &b in &special[..ns3] { for &c in &special[..ns3] { triples.push((a, b, c)); } } }
-    for _ in 0..(if th { 40000 } else { 3000 }) {
+    for _ in 0..(if th { 40000 } else { 10000 }) {
         let pick = |rng: &mut Rng| match rng.below(5) {
             0 => special[rng.below(special.len())],
             1 => rng.next_u64() as i64,
@@ -631,7 +631,7 @@ fn main() {
 
     // (3) every shape 1×1 … 6×6, random / rank-deficient / planted / unimodular
     let mut rng = ctx.rng(30);
-    let rounds = if th { 1100 } else { 28 };
+    let rounds = if th { 1100 } else { 60 };
     for _ in 0..rounds {
         for nr in 1..=6usize {
             for nc in 1..=6usize {
@@ -672,7 +672,7 @@ fn main() {
     modsolve_case(&mut ctx, &vec![vec![PRIME, 0], vec![0, 1]], &vec![vec![1], vec![1]], "singular-mod-p");
     modsolve_case(&mut ctx, &vec![vec![1, 2], vec![2, 4]], &vec![vec![1], vec![2]], "singular");
     modsolve_case(&mut ctx, &vec![vec![-PRIME, 1], vec![1, -2 * PRIME]], &vec![vec![-PRIME, 5], vec![7, PRIME]], "entries-multiple-of-p");
-    for _ in 0..(if th { 60000 } else { 2500 }) {
+    for _ in 0..(if th { 60000 } else { 5000 }) {
         let n = 1 + rng.below(6);
         let ent = [Ent::Tiny, Ent::Small, Ent::Large][rng.below(3)];
         let (a, kind) = match rng.below(8) {
